@@ -509,6 +509,14 @@ def r4(ctx, R):
                                 why = f"drops the matched prefix (pattern min width {w})"
                         if why:
                             progress[i] = f"{unparse(a)}: {why}"
+                if isinstance(a, ast.Assign) and len(a.targets) == 1 and isinstance(a.value, ast.IfExp) and access_path(a.targets[0]) in V:
+                    # `X = stack.pop() if stack else None` under `while X is not None`: pops, or ends the loop
+                    alts_ = [a.value.body, a.value.orelse]
+                    is_pop_ = lambda x: isinstance(x, ast.Call) and isinstance(x.func, ast.Attribute) and x.func.attr in ("pop", "popleft") and not x.args
+                    t_ = lp.test
+                    ends_ = isinstance(t_, ast.Compare) and len(t_.ops) == 1 and isinstance(t_.ops[0], ast.IsNot) and isinstance(t_.comparators[0], ast.Constant) and t_.comparators[0].value is None and access_path(t_.left) == access_path(a.targets[0])
+                    if any(is_pop_(x) for x in alts_) and all(is_pop_(x) or (ends_ and isinstance(x, ast.Constant) and x.value is None) for x in alts_):
+                        progress[i] = f"{unparse(a)[:60]} pops the tested state or ends the loop"
                 if isinstance(a, ast.Assign) and len(a.targets) == 1 and isinstance(a.value, ast.Constant) and a.value.value is None:
                     # `X = None` under `while X is not None`: the iteration that runs it is the last one
                     t_ = lp.test
